@@ -68,7 +68,7 @@ def entry_wf(k, v):
         return [("entry-not-dict", k)]
     extra = set(v.keys()) - ALLOWED_KEYS
     if extra:
-        bad.append(("entry-extra-keys", "%s: %s" % (k, sorted(extra))))
+        bad.append(("entry-extra-keys:" + "+".join(sorted(extra)), "%s: %s" % (k, sorted(extra))))
     if "typ" in v:
         if not isinstance(v["typ"], str):
             bad.append(("typ-not-str", "%s: %r" % (k, v["typ"])))
@@ -127,8 +127,37 @@ def gen_docstring(rng, style, names):
 
 
 def gen_case(rng, i):
-    kind = ["docstring", "function", "class", "emitted", "text", "class_merge"][i % 6]
+    kind = ["docstring", "function", "class", "emitted", "text", "class_merge", "sql_source"][i % 7]
     style = rng.choice(STYLES)
+    if kind == "sql_source":
+        # hand-written SQLAlchemy models: every combination of the column markers the parser folds into the description
+        names = rng.sample(PNAMES, rng.randint(1, 5))
+        cols = []
+        for n in names:
+            typ = rng.choice(["Integer", "String", "Boolean", "Float", "JSON", "Enum('a', 'b', name='%s')" % n, "LargeBinary"])
+            args = [typ]
+            if rng.random() < 0.35:
+                args.append('ForeignKey("%s")' % rng.choice(["employee.id", "users.uid"]))
+            kws = []
+            if rng.random() < 0.35:
+                kws.append("primary_key=True")
+            if rng.random() < 0.5:
+                kws.append("%s=%r" % (rng.choice(["doc", "comment"]), rng.choice(DESCS)))
+            if rng.random() < 0.3:
+                kws.append("nullable=%s" % rng.choice(["True", "False"]))
+            if rng.random() < 0.3:
+                kws.append(rng.choice(["default=5", "default='x'", "server_default='0'", "default=None"]))
+            cols.append((n, args, kws))
+        as_table = rng.random() < 0.5
+        documented = rng.sample(names, rng.randint(0, len(names)))
+        if as_table:
+            src = "t = Table(%s)\n" % ", ".join(['"things"', "metadata"] + ["Column(%s)" % ", ".join(['"%s"' % n] + a + k) for n, a, k in cols]
+                                                 + ['comment="Things table"'])
+        else:
+            doc = "\n".join(["    Things table", ""] + ["    :cvar %s: %s" % (n, rng.choice(DESCS)) for n in documented])
+            src = 'class Things(Base):\n    """\n%s\n    """\n\n    __tablename__ = "things"\n\n%s\n' % (
+                doc, "\n".join("    %s = Column(%s)" % (n, ", ".join(a + k)) for n, a, k in cols))
+        return {"kind": kind, "style": "rest", "src": src, "table": as_table}
     if kind == "docstring":
         names = rng.sample(PNAMES, rng.randint(0, 4))
         if rng.random() < 0.5:
@@ -212,6 +241,9 @@ def impl_case(c):
                 sig = c["sig"]
             elif c["kind"] == "class":
                 ir = cdd.class_.parse.class_(ast.parse(c["src"]).body[0])
+            elif c["kind"] == "sql_source":
+                node = ast.parse(c["src"]).body[0]
+                ir = cdd.sqlalchemy.parse.sqlalchemy_table(node) if c["table"] else cdd.sqlalchemy.parse.sqlalchemy(node)
             elif c["kind"] == "class_merge":
                 ir = cdd.class_.parse.class_(ast.parse(c["src"]).body[0], merge_inner_function=c["merge"])
                 sig = c["sig"]
